@@ -107,18 +107,18 @@ type Op struct {
 	K    Kind
 	Path Path
 	Init Init
-	E    int      // entity (model index)
-	Cs   ct.Set   // components to add / create / set
+	E    int       // entity (model index)
+	Cs   ct.Set    // components to add / create / set
 	Ord  []ct.Comp `json:",omitempty"` // explicit tuple order for typed paths (default: ascending)
-	Rm   ct.Set   // components to remove
-	T    []RelT   `json:",omitempty"` // relation targets
-	F    int      // filter index
-	QT   []RelT   `json:",omitempty"` // per-query / per-batch relation targets
-	Q    int      // query slot
-	N    int      // count / pattern / resource / index
-	O    int      // observer index
-	Fn   bool     // batch/entities callback given
-	Inv  int      // invalid call kind (OpInvalid)
+	Rm   ct.Set    // components to remove
+	T    []RelT    `json:",omitempty"` // relation targets
+	F    int       // filter index
+	QT   []RelT    `json:",omitempty"` // per-query / per-batch relation targets
+	Q    int       // query slot
+	N    int       // count / pattern / resource / index
+	O    int       // observer index
+	Fn   bool      // batch/entities callback given
+	Inv  int       // invalid call kind (OpInvalid)
 }
 
 func relStr(rs []RelT) string {
@@ -295,7 +295,7 @@ type QueryState struct {
 // Ev is an expected observer callback.
 type Ev struct {
 	Obs int
-	Ent int // model entity index; -1 for the zero entity
+	Ent int  // model entity index; -1 for the zero entity
 	Pre bool // callback runs before the change (removal events)
 }
 
